@@ -240,5 +240,8 @@ func RunC07(seed int64, tier, outDir string) (*emit.Summary, error) {
 	sum.Extra["std_lists_le2"] = len(lists)
 	sum.Extra["kinds"] = len(allKinds)
 	sum.Samples = []any{sh.files[0].Text[1], sh.files[len(sh.files)-1].Text[0], ash.files[0].Text[4]}
+	if err := runReaders(r, "C07", tier, outDir, sum); err != nil {
+		return nil, err
+	}
 	return sum, nil
 }
